@@ -72,10 +72,16 @@ func source(name string, bits int) string {
 
 func synthetic() pipe.Tree {
 	t := pipe.Tree{
-		"go.mod":       pipe.GoMod(modPath, "1.24"),
-		"dep1/dep1.go": "package dep1\n\nimport \"" + modPath + "/dep2\"\n\nvar V = dep2.W\n\ntype T int\n",
-		"dep2/dep2.go": "package dep2\n\nimport \"" + modPath + "/dep3\"\n\nvar W = dep3.X\n",
-		"dep3/dep3.go": "package dep3\n\nvar X = 1\n\nfunc f() { type T int }\n\n// the package declares some predeclared names itself\ntype error interface{ Error() string }\n\nconst true = 1 == 1\n\nfunc len(x string) int { return 0 }\n",
+		// one dependency comes from a module under a `replace` directive (a local directory): its packages
+		// have a module whose directory is not below the main module and whose path is not modPath
+		"go.mod":                   pipe.GoMod(modPath, "1.24") + "\nrequire rep.io/lib v0.0.0\n\nreplace rep.io/lib => ./_replaced/lib\n",
+		"_replaced/lib/go.mod":     pipe.GoMod("rep.io/lib", "1.22"),
+		"_replaced/lib/lib.go":     "package lib\n\nimport \"rep.io/lib/sub\"\n\n// T is a type of the replaced module.\ntype T struct{ S sub.S }\n\nfunc (T) M() {}\n\nfunc (*T) PM() {}\n\nconst C = 1\n\nfunc F() T { return T{} }\n",
+		"_replaced/lib/sub/sub.go": "package sub\n\ntype S int\n\nfunc (S) String() string { return \"\" }\n\nvar V S\n\nfunc G() {}\n",
+		"dep4/dep4.go":             "package dep4\n\nimport (\n\t\"rep.io/lib\"\n\t\"rep.io/lib/sub\"\n)\n\nvar L lib.T\n\nvar S sub.S\n",
+		"dep1/dep1.go":             "package dep1\n\nimport \"" + modPath + "/dep2\"\n\nvar V = dep2.W\n\ntype T int\n",
+		"dep2/dep2.go":             "package dep2\n\nimport \"" + modPath + "/dep3\"\n\nvar W = dep3.X\n",
+		"dep3/dep3.go":             "package dep3\n\nvar X = 1\n\nfunc f() { type T int }\n\n// the package declares some predeclared names itself\ntype error interface{ Error() string }\n\nconst true = 1 == 1\n\nfunc len(x string) int { return 0 }\n",
 	}
 	for bits := 0; bits < 1<<nBits; bits++ {
 		name := fmt.Sprintf("k%03d", bits)
@@ -321,47 +327,59 @@ func checkUniverse(c *core.Ctx, corpus string, u *gengotypes.Universe, pkgPaths 
 		}
 		// location (module packages only)
 		if m := p.Module(); m != nil && len(p.Files()) > 0 && strings.HasPrefix(corpus, "synthetic") || (p.Module() != nil && strings.HasPrefix(path, "github.com/octohelm/gengo")) {
-			dirs := map[string]bool{}
-			for _, f := range p.Files() {
-				fn := p.FileSet().File(f.FileStart).Name()
-				if strings.HasSuffix(fn, ".go") && !strings.Contains(fn, "go-build") {
-					dirs[filepath.Dir(fn)] = true
-				}
-				if lp := u.LocateInPackage(f.Package); lp != p {
-					got := "<nil>"
-					if lp != nil {
-						got = lp.Pkg().Path()
+			func() {
+				// a location query that panics is an answer too: a wrong one
+				defer func() {
+					if x := recover(); x != nil {
+						c.Fail("", cs, "%s: a location query (LocateInPackage / SourceDir) about this package panicked: %v", path, x)
 					}
-					c.Fail("", cs, "%s: LocateInPackage(pos in %s) = %s", path, fn, got)
-				}
-			}
-			// positions anywhere in the files: the first and the last byte of every file, every package-scope object
-			for _, f := range p.Files() {
-				for _, pos := range []token.Pos{f.FileStart, f.FileEnd - 1, f.End() - 1} {
-					if lp := u.LocateInPackage(pos); lp != p {
-						c.Fail("", cs, "%s: LocateInPackage(%s) is not the package", path, p.FileSet().Position(pos))
-					}
-				}
-			}
-			for _, n := range scope.Names() {
-				if o := scope.Lookup(n); o.Pos().IsValid() {
-					c.Trans(1)
-					if lp := u.LocateInPackage(o.Pos()); lp != p {
-						c.Fail("", cs, "%s: LocateInPackage(position of %s) is not the package", path, n)
-					}
-				}
-			}
-			if len(dirs) == 1 {
-				for d := range dirs {
-					if p.SourceDir() != d {
-						c.Fail("", cs, "%s: SourceDir() = %q, its files are in %q", path, p.SourceDir(), d)
-					}
-				}
-			}
+				}()
+				locationChecks(c, cs, u, p, scope, path)
+			}()
 		}
 		c.State(fmt.Sprintf("%s|t%d c%d f%d m%d i%d", corpus, len(wantT), len(wantC), len(wantF), nMeth, len(wantImp)))
 		if len(wantT)+len(wantC)+len(wantF) > 0 {
 			c.Nontrivial(fmt.Sprint(corpus, path, def, pol))
+		}
+	}
+}
+
+func locationChecks(c *core.Ctx, cs Case, u *gengotypes.Universe, p gengotypes.Package, scope *types.Scope, path string) {
+	dirs := map[string]bool{}
+	for _, f := range p.Files() {
+		fn := p.FileSet().File(f.FileStart).Name()
+		if strings.HasSuffix(fn, ".go") && !strings.Contains(fn, "go-build") {
+			dirs[filepath.Dir(fn)] = true
+		}
+		if lp := u.LocateInPackage(f.Package); lp != p {
+			got := "<nil>"
+			if lp != nil {
+				got = lp.Pkg().Path()
+			}
+			c.Fail("", cs, "%s: LocateInPackage(pos in %s) = %s", path, fn, got)
+		}
+	}
+	// positions anywhere in the files: the first and the last byte of every file, every package-scope object
+	for _, f := range p.Files() {
+		for _, pos := range []token.Pos{f.FileStart, f.FileEnd - 1, f.End() - 1} {
+			if lp := u.LocateInPackage(pos); lp != p {
+				c.Fail("", cs, "%s: LocateInPackage(%s) is not the package", path, p.FileSet().Position(pos))
+			}
+		}
+	}
+	for _, n := range scope.Names() {
+		if o := scope.Lookup(n); o.Pos().IsValid() {
+			c.Trans(1)
+			if lp := u.LocateInPackage(o.Pos()); lp != p {
+				c.Fail("", cs, "%s: LocateInPackage(position of %s) is not the package", path, n)
+			}
+		}
+	}
+	if len(dirs) == 1 {
+		for d := range dirs {
+			if p.SourceDir() != d {
+				c.Fail("", cs, "%s: SourceDir() = %q, its files are in %q", path, p.SourceDir(), d)
+			}
 		}
 	}
 }
@@ -398,7 +416,7 @@ func loadSynthetic(c *core.Ctx) (*gengotypes.Universe, []string) {
 	for bits := 0; bits < 1<<nBits; bits++ {
 		paths = append(paths, fmt.Sprintf("%s/p/k%03d", modPath, bits))
 	}
-	paths = append(paths, modPath+"/dep1", modPath+"/dep2", modPath+"/dep3", "strings")
+	paths = append(paths, modPath+"/dep1", modPath+"/dep2", modPath+"/dep3", modPath+"/dep4", "rep.io/lib", "rep.io/lib/sub", "strings")
 	return u, paths
 }
 
@@ -664,7 +682,7 @@ func replay(c *core.Ctx, raw json.RawMessage) {
 func init() {
 	core.Register(&core.Prop{
 		ID: "C13", Level: "model_checking", Run: run, Replay: replay,
-		Rule: "packages: all 256 combinations of 8 declaration features (shadowing local types/consts, shadowing type parameters, generic receivers, grouped/blank/init declarations, method-local types, import chains, interfaces/embedding) + 4 dependency packages, and every package of the real closure of github.com/octohelm/gengo/... (std included); each universe is loaded once per map-iteration policy (4 global policies on both corpora, plus every vector with <=1 (thorough <=2) deviating loader sites); the synthetic module is also loaded from a second directory (same module path) in the same process, and the first universe is asked again afterwards; every accessor (Types/Constants/Functions, Type/Constant/Function, MethodsOf true/false, Imports, LocateInPackage, SourceDir) is compared with Scope(), Named.Method(i), the files' import specs and file directories. Non-trivial = package with at least one declaration; states = distinct (corpus, #types, #consts, #funcs, #methods, #imports)",
+		Rule: "packages: all 256 combinations of 8 declaration features (shadowing local types/consts, shadowing type parameters, generic receivers, grouped/blank/init declarations, method-local types, import chains, interfaces/embedding) + 4 dependency packages + 2 packages of a dependency module under a local `replace` directive, and every package of the real closure of github.com/octohelm/gengo/... (std included); each universe is loaded once per map-iteration policy (4 global policies on both corpora, plus every vector with <=1 (thorough <=2) deviating loader sites); the synthetic module is also loaded from a second directory (same module path) in the same process, and the first universe is asked again afterwards; every accessor (Types/Constants/Functions, Type/Constant/Function, MethodsOf true/false, Imports, LocateInPackage, SourceDir) is compared with Scope(), Named.Method(i), the files' import specs and file directories. Non-trivial = package with at least one declaration; states = distinct (corpus, #types, #consts, #funcs, #methods, #imports)",
 		Assumptions: []string{
 			"blank names and init are ignored in all three tables",
 			"MethodsOf of interface types is not judged (statement: 'declared methods')",
